@@ -14,7 +14,9 @@ func TestDebug(t *testing.T) {
 		t.Skip()
 	}
 	b, _ := os.ReadFile(f)
-	var doc struct{ Script Script `json:"script"` }
+	var doc struct {
+		Script Script `json:"script"`
+	}
 	if err := json.Unmarshal(b, &doc); err != nil || doc.Script.Ver == 0 {
 		_ = json.Unmarshal(b, &doc.Script)
 	}
